@@ -65,7 +65,8 @@ def build(rnd, pack, dcls):
     def use(n):
         if n in defined:
             return n + '{w}{v}'
-        return n + rnd.choice(['', ' ', '{w}', '{w}{v}', '{}', '\n'])
+        # (a letter outside ASCII directly behind the name ends the control word, as a digit does)
+        return n + rnd.choice(['', ' ', '{w}', '{w}{v}', '{}', '\n', '\u00e9t\u00e9', '\u0436', '1', '\u00e4 '])
     for _ in range(rnd.randint(2, 14)):
         ctx = rnd.choice(['text', 'text', 'text', 'unkarg', 'declarg', 'foot', 'head', 'item', 'env', 'inline',
                           'display', 'comment', 'skip', 'ltskip', 'decl', 'uenv', 'define', 'declenv', 'cell',
